@@ -229,6 +229,7 @@ class WorldA:
 
     def run(self) -> None:
         self._probe_cache = {}
+        oracles.GRAD_MODE = "no_grad"
         for i, op in enumerate(self.plan["ops"]):
             self.tr.step = i
             self.tr.count(f"op:{op['op']}")
@@ -737,6 +738,10 @@ class WorldA:
         if c is None:
             return {"status": "noop"}
         c.cc.train(bool(op.get("train", False)))
+        if op.get("grad") is not None:
+            # ... and how the harness evaluates from now on: no_grad / inference_mode / autograd on
+            oracles.GRAD_MODE = op["grad"]
+            self.tr.count(f"grad-mode:{op['grad']}")
         return {"status": "ok", "recheck": True}
 
     def op_foreign_compile(self, op: dict[str, Any]) -> dict[str, Any]:
